@@ -10,6 +10,7 @@ Two modes share one implementation:
 """
 
 import copy
+import os
 import re
 
 from .report import Unsupported
@@ -122,6 +123,14 @@ class PyVec(object):
 
     def __repr__(self):
         return "vec%r" % (self.items,)
+
+
+# coverage of evaluated functions (development aid): MSVERIF_COVERAGE=<dir> makes every process dump the def paths it
+# evaluated to <dir>/<pid>.txt at exit
+_COVERAGE = None
+if os.environ.get("MSVERIF_COVERAGE"):
+    _COVERAGE = set()
+    os.makedirs(os.environ["MSVERIF_COVERAGE"], exist_ok=True)
 
 
 class PyIter(object):
@@ -357,6 +366,13 @@ class Machine(object):
         if self.depth >= self.max_depth:
             raise Unsupported("call depth exceeded at %s" % path)
         self.called.add(path)
+        if _COVERAGE is not None and path not in _COVERAGE:
+            _COVERAGE.add(path)
+            try:
+                with open(os.path.join(os.environ["MSVERIF_COVERAGE"], "%d.txt" % os.getpid()), "a") as fh:
+                    fh.write(path + "\n")
+            except OSError:
+                pass
         if self.depth == 0:
             self.steps = 0
         th = body["thir"]
